@@ -165,7 +165,7 @@ func (w *World) buildMsg(name string, a []string, inner []sdk.Msg) sdk.Msg {
 	panic("unknown message kind " + name)
 }
 
-// tx: signers=a1,a2|auto payer=-|a3 fee=100:uusdc,5:asetl gas=200000 msgs=<expr>
+// tx: signers=a1,a2|auto payer=-|a3 [granter=a4] fee=100:uusdc,5:asetl gas=200000 msgs=<expr>
 func (w *World) execTx(f []string) (res Result) {
 	defer func() {
 		if p := recover(); p != nil {
@@ -194,6 +194,9 @@ func (w *World) execTx(f []string) (res Result) {
 	b.SetFeeAmount(fees)
 	if pt := kvs["payer"]; pt != "" && pt != "-" {
 		b.SetFeePayer(w.AccAddr(pt))
+	}
+	if gt := kvs["granter"]; gt != "" && gt != "-" {
+		b.SetFeeGranter(w.AccAddr(gt)) // an unsigned field: anybody can name anybody
 	}
 	// signing
 	var keys []cryptotypes.PrivKey
